@@ -295,7 +295,8 @@ def harnesses(tier):
     small = [t for t in singles if size(t) <= 2 and "X" not in t[1] and not any(k not in ("X", "Y") and "Y" in k[1] for k in t[1])]
     pairs = list(itertools.combinations_with_replacement(small if tier == "thorough" else [t for t in small if t[0] in ("S", "R1")], 2))
     for a, b in pairs:
-        if tier == "quick" and size(a) + size(b) > 3:
+        # pairs of more than 3 nodes have thousands of line-level points per execution: PB 1 alone is beyond any budget
+        if size(a) + size(b) > 3:
             continue
         hs.append(H("singleton", ((a,), (b,)), False))
         hs.append(H("trampoline", ((a,), (b,)), True))
@@ -316,10 +317,8 @@ def bounds(tier, h):
         return (0, 0) if tier == "quick" else ((0, 1) if nodes <= 3 else (0, 0))
     if tier == "quick":
         return (1, 0)
-    # two threads, thorough: every pair with PB 1; pairs of <= 3 nodes with PB 2; pairs of 2 nodes also with one clock tick
-    if nodes <= 2:
-        return (2, 1)
-    return (2, 0) if nodes <= 3 else (1, 0)
+    # two threads, thorough: pairs of <= 3 nodes with PB 1 and one clock tick; pairs of 2 nodes with PB 2
+    return (2, 1) if nodes <= 2 else (1, 1)
 
 
 def shard(part, shard_i, nshards, tier, seed, deadline):
@@ -332,7 +331,7 @@ def shard(part, shard_i, nshards, tier, seed, deadline):
 
 def run(ctx):
     hs = harnesses(ctx.tier)
-    ctx.bounds = {"tree_nodes": 4 if ctx.tier == "quick" else 5, "two_threads(PB,TB)": (1, 0) if ctx.tier == "quick" else "all pairs (1, 0); pairs of <= 3 nodes (2, 0); pairs of 2 nodes (2, 1)", "single_thread(PB,TB)": "(0, 1) up to 3 nodes, (0, 0) above", "harnesses": len(hs)}
+    ctx.bounds = {"tree_nodes": 4 if ctx.tier == "quick" else 5, "two_threads(PB,TB)": (1, 0) if ctx.tier == "quick" else "pairs of <= 3 nodes (1, 1); pairs of 2 nodes (2, 1)", "single_thread(PB,TB)": "(0, 1) up to 3 nodes, (0, 0) above", "harnesses": len(hs)}
     ctx.assumptions = ["controlled clock; Condition.wait(timeout) = blocked until notified or clock >= deadline", "preemption at sync operations and line boundaries of the trampoline files"]
     ctx.sharded(shard, nshards=min(len(hs), max(1, ctx.workers) * 8))
     ilvrun.finish_cov(ctx, ctx.total)
